@@ -75,7 +75,7 @@ theorem finish_scroll_spec (e : Env) (s prev : Screen) (pos : Point) (last : Opt
     went wrong (no cursor motion past the margins). -/
 theorem diff_done_scroll (e : Env) (s : Screen) (pos : Point) (prev : Option Screen) (last : Option Nat)
     (pw : Nat) (T : Term)
-    (h1 : cw ' ' = 1) (hdef : (e.attrsOf 1).hasStyle = false) (hn : Narrow cw s)
+    (h1 : cw ' ' = 1) (hdef : EnvOk e) (hn : Narrow cw s)
     (pre : Pre e T pos last prev) (hfull : min s.height e.h = T.h) :
     (∀ y x, y + 1 < T.h → x < e.w →
       ((exec cw T (diff e s pos prev last true pw).cmds).cells y x).norm =
@@ -134,6 +134,6 @@ example : (exec cw1 exT0 (diff exEnv exS3 ⟨0, 0⟩ none none true 0).cmds).cel
 
 example : ((exec cw1 exT0 (diff exEnv exS3 ⟨0, 0⟩ none none true 0).cmds).cells 1 0).norm =
     (tcellOf exEnv.attrsOf (cellAt (exS3.row 2) 0)).norm :=
-  (diff_done_scroll cw1 exEnv exS3 ⟨0, 0⟩ none none 0 exT0 rfl rfl (narrow_of_check _ (by decide))
+  (diff_done_scroll cw1 exEnv exS3 ⟨0, 0⟩ none none 0 exT0 rfl (exEnvOk 0 8) (narrow_of_check _ (by decide))
     ⟨rfl, by decide, rfl, rfl, by decide, (fun _ h => by cases h), rfl⟩ (by decide)).1 1 0 (by decide) (by decide)
 end Ptk.C06
